@@ -214,6 +214,15 @@ def bPowMont (x e : List Nat) (bits : Nat) (ms one : List Nat) (k : Nat) : List 
 def bPowFull (x e : List Nat) (ms one : List Nat) (k : Nat) : List Nat :=
   bPowMont x e (LIMB_BITS * e.length) ms one k
 
+/-! ## the three representations (const / runtime / boxed) behind one entry point -/
+
+/-- `ConstMontyForm::pow_bounded_exp` / `MontyForm::pow_bounded_exp` / `BoxedMontyForm::pow_bounded_exp`
+    (inherent methods and the `PowBoundedExp` trait impls, which forward to them). -/
+def opPow (s : State) (x e : List Nat) (bits : Nat) : List Nat :=
+  match s.rep with
+  | .boxed => bPowMont x e bits s.params.modulus s.params.one s.params.modNegInv
+  | _ => powMont x e bits s.params.modulus s.params.one s.params.modNegInv
+
 /-! ## L0: what the property demands -/
 
 /-- `base^(exponent mod 2^k) mod m`. -/
